@@ -68,6 +68,27 @@ CLAIMED['C13'] = dict(
    note="Trusted base of DESIGN 7.",
    design='5 C13')
 
+CLAIMED['C01'] = dict(
+   category='proof',
+   text="FRAGMENT, proved on the continuations of publish_send_op (QoS 1 and 2, emitted from their template instantiations, environment recorded by ghost event counters): the wait for PUBACK/PUBREC/PUBCOMP is registered only after the write succeeded and for exactly (packet type, this packet id); a completion with success happens only after a decodable acknowledgement whose reason code to_reason_code admits, and the reason code handed to the handler is the decoded byte (QoS 2: only from on_pubcomp, or from on_pubrec with a code >= 0x80); an undecodable or inadmissible acknowledgement never completes successfully. NOT decided: that the broker received exactly the caller's bytes (transport, encoder composition), reply routing in replies::dispatch (where not built), stale replies across reconnects under arbitrary schedules.",
+   note="Opaque environment (client_service, cancellable_handler, asio::prepend, decode_*) = stubs with recording bodies; assumed: Asio invokes each handler once; control_packet::of stores the id it is given.",
+   design='5 C01')
+CLAIMED['C05'] = dict(
+   category='proof',
+   text="FRAGMENT, proved: the LINEAR-CONTINUATION obligation on every continuation put under contract so far (publish_send_op QoS 0/1/2: on_publish, on_puback, on_pubrec, on_pubrel, on_pubcomp, perform): on every path exactly one of {the user handler is completed once, the operation object is moved into exactly one next asynchronous step}, never both, never two. Given Asio's 'each initiated operation invokes its handler exactly once' this excludes double completion and forking on these paths. NOT decided: the second sentence of the property (after cancel()/async_disconnect everything completes and the context runs out of work), re-entrancy, destruction, the other operation classes where not yet built.",
+   note="Assumed: Asio handler-once; dispatch on the handler's executor is not re-entrant absent an immediate executor.",
+   design='5 C05')
+CLAIMED['C07'] = dict(
+   category='proof',
+   text="FRAGMENT, proved: every completion of a QoS 1/2 publish releases its packet identifier exactly once with was_throttled = true (complete), immediate rejections release it with was_throttled = false and never release id 0; PUBLISH is sent throttled, the first PUBREL prioritized and not throttled, a resent PUBREL prioritized and throttled. NOT built yet: the quota invariant of async_sender (do_write / throttled_op_done / resend) with the ghost in-flight counter; NOT decided: pairing of consumption and release across asynchronous boundaries.",
+   note="As C01.",
+   design='5 C07')
+CLAIMED['C15'] = dict(
+   category='proof',
+   text="FRAGMENT (the whole synchronous path of async_publish QoS 1), proved for EVERY combination of announced capabilities (opaque connack_property returns arbitrary optionals): a PUBLISH is handed to async_send only if QoS <= Maximum QoS (default 2), not (retain and Retain Available = 0), Topic Alias absent or 1 <= alias <= Topic Alias Maximum (alias == max accepted, max 0 rejects), size <= Maximum Packet Size (size == limit accepted); otherwise the request completes immediately with the documented code (qos_not_supported, retain_not_available, topic_alias_maximum_reached, packet_too_large, invalid_topic, pid_overrun), nothing is sent and the allocated identifier is released (free_pid(id,false)). NOT built yet: subscribe/unsubscribe/disconnect paths; NOT decided: which CONNACK is current at initiation.",
+   note="Validators are uninterpreted functions of the string they are applied to (their correctness is C16's unit utf8). The user-property loop is closed by a loop contract (partial correctness).",
+   design='5 C15')
+
 NOT_APPLICABLE = {
  'C02': "liveness under fairness over unbounded fault sequences ('eventually completes once the broker stays reachable'): a function contract cannot state 'eventually', and there is no CBMC model of Boost.Asio scheduling; its function-local safety crumbs are carried under C03/C05 (DESIGN 5 C02)",
 }
